@@ -120,14 +120,21 @@ func C02(c *core.Ctx) error {
 	}
 	var mu sync.Mutex
 	decided, assertions, undecided := 0, 0, 0
-	core.ParallelFor(len(combos), func(i int) {
+	// the corpus is cut into chunks of at most 350 interfaces (one generated file each): smaller files, more parallelism
+	const chunkSize = 350
+	nChunks := (len(all) + chunkSize - 1) / chunkSize
+	core.ParallelFor(len(combos)*nChunks, func(j int) {
+		i, ch := j/nChunks, j%nChunks
 		g := combos[i]
 		var cases []shapes.Case
-		for _, cs := range all {
-			if (cs.InPkgOnly && !g.inPackage()) || skip[cs.ID+"|"+g.template] {
+		for k, cs := range all {
+			if k/chunkSize != ch || (cs.InPkgOnly && !g.inPackage()) || skip[cs.ID+"|"+g.template] {
 				continue
 			}
 			cases = append(cases, cs)
+		}
+		if len(cases) < 5 {
+			return
 		}
 		byName := map[string]shapes.Case{}
 		for _, cs := range cases {
@@ -210,7 +217,7 @@ func C02(c *core.Ctx) error {
 			assertions += len(lineCase)
 		}
 		mu.Unlock()
-		if i%3 == 0 {
+		if j%5 == 0 {
 			c.Ev.Sample(map[string]any{"combo": g.String(), "interfaces": len(cases), "assertions": len(lineCase), "first_assertions": strings.Split(src, "\n")[len(strings.Split(src, "\n"))-4:]})
 		}
 	})
